@@ -4,7 +4,10 @@
   G1 the meaning of a terminating program does not depend on the fuel, and statement sequences compose.
 -/
 import SeedProofs.Global
+import SeedProofs.Lemmas.C01Ctx
+-- audit: Seed.C01.exact_ctx_gen Seed.C01.exact_ctx Seed.C01.refines_ctx Seed.C01.uptoEq_ctx Seed.C01.reaches_bind Seed.C01.stmts_append_exact Seed.C01.uptoEq_iff
 namespace Seed.C01
+open Seed.C07 (FuelEq)
 open Seed
 
 /-- G1: a run that does not time out has the same outcome with any larger fuel: "terminating program" is well defined -/
@@ -76,5 +79,90 @@ theorem escape_cuts (n : Nat) (σ σ' : State) (sc : List Addr) (s₁ s₂ : Lis
   | brk l => exact this
   | cont l => exact this
   | ret v l => exact this
+
+/-! ### observational congruence for statement contexts -/
+
+/-- **Congruence, same result at every fuel.**  If `s` and `t` have the same result at every fuel, state and scope
+    chain, so have `K[s]` and `K[t]`, for every one-hole context `K` built from statement sequences, bare blocks, the
+    bodies of `if` / `else if` / `else` branches, `while` bodies and `for` bodies — provided `s` and `t` have the same
+    number of statements or nothing follows the hole in its own statement list (`exact_not_congruent_in_general` shows
+    that this proviso cannot be dropped: the fuel-exact equality counts statements). -/
+theorem stmt_ctx_congr (K : SCtx) {s t : List Stmt} (h : ∀ n σ sc, evalStmts n σ sc s = evalStmts n σ sc t)
+    (hok : s.length = t.length ∨ K.HoleLast) :
+    ∀ n σ sc, evalStmts n σ sc (K.plug s) = evalStmts n σ sc (K.plug t) := exact_ctx_gen K h hok
+
+/-- **Congruence up to fuel** (the full statement: no proviso).  If in every state and scope chain `s` and `t` reach the
+    same results — whatever one yields at some fuel, other than a time-out, the other yields at some fuel — then so do
+    `K[s]` and `K[t]`, for every context `K`. -/
+theorem stmt_ctx_congr_upto (K : SCtx) {s t : List Stmt}
+    (h : ∀ σ sc, FuelEq (fun n => evalStmts n σ sc s) (fun n => evalStmts n σ sc t)) :
+    ∀ σ sc, FuelEq (fun n => evalStmts n σ sc (K.plug s)) (fun n => evalStmts n σ sc (K.plug t)) := uptoEq_ctx K h
+
+/-- the one-directional form: if `t` can do whatever `s` does, `K[t]` can do whatever `K[s]` does -/
+theorem stmt_ctx_refines (K : SCtx) {s t : List Stmt}
+    (h : ∀ n σ sc, evalStmts n σ sc s ≠ .timeout → ∃ m, evalStmts m σ sc t = evalStmts n σ sc s) :
+    ∀ n σ sc, evalStmts n σ sc (K.plug s) ≠ .timeout → ∃ m, evalStmts m σ sc (K.plug t) = evalStmts n σ sc (K.plug s) :=
+  refines_ctx K h
+
+private def tt : Expr := .mk (.Bool true) (1, 0)
+private def andtt : Expr := .mk (.BinaryOp .And (1, 5) tt tt) (1, 0)
+
+/-- `true; true;` and `true && true;` have the same result at every fuel (a time-out below 4, normal completion in the
+    same state from 4 on) … -/
+theorem two_vs_one : ExactEq [.Expr tt, .Expr tt] [.Expr andtt] := by
+  intro n σ sc
+  match n with
+  | 0 => with_unfolding_all rfl
+  | 1 => with_unfolding_all rfl
+  | 2 => with_unfolding_all rfl
+  | 3 => with_unfolding_all rfl
+  | n + 4 =>
+    have hs : ∀ k σ, evalStmt (k + 2) σ sc (.Expr tt) = .ok .none σ := by
+      intro k σ; unfold evalStmt; unfold evalExpr; rfl
+    have ht : ∀ k σ, evalStmt (k + 3) σ sc (.Expr andtt) = .ok .none σ := by
+      intro k σ; unfold evalStmt; unfold evalExpr; unfold evalExpr; rfl
+    rw [stmts_cons, stmts_cons, hs (n + 1), ht n]
+    simp only [Res.bind, stmts_nil]
+    rw [stmts_cons, hs n]
+    simp only [Res.bind, stmts_nil]
+
+/-- … but followed by a third statement they differ at fuel 4: without the proviso of `stmt_ctx_congr` the fuel-exact
+    equality is not a congruence (the up-to-fuel one is: `stmt_ctx_congr_upto`) -/
+theorem exact_not_congruent_in_general :
+    ∃ (K : SCtx) (s t : List Stmt), (∀ n σ sc, evalStmts n σ sc s = evalStmts n σ sc t) ∧
+      ¬ ∀ n σ sc, evalStmts n σ sc (K.plug s) = evalStmts n σ sc (K.plug t) := by
+  refine ⟨.seq [] .hole [.Expr tt], _, _, two_vs_one, fun h => ?_⟩
+  have h4 := h 4 State.init []
+  have hl : evalStmts 4 State.init [] ((SCtx.seq [] .hole [.Expr tt]).plug [.Expr tt, .Expr tt]) = .timeout := by
+    with_unfolding_all rfl
+  have hr : evalStmts 4 State.init [] ((SCtx.seq [] .hole [.Expr tt]).plug [.Expr andtt]) = .ok .none State.init := by
+    with_unfolding_all rfl
+  rw [hl, hr] at h4
+  cases h4
+
+/-- non-vacuity of `stmt_ctx_congr`: the pair above in `while c { pre; □ }` (nothing follows the hole) -/
+example (c : Expr) (pre : Stmt) (n : Nat) (σ : State) (sc : List Addr) :
+    evalStmts n σ sc [.While c [pre, .Expr tt, .Expr tt]] = evalStmts n σ sc [.While c [pre, .Expr andtt]] :=
+  stmt_ctx_congr (.whileBody c (.seq [pre] .hole [])) two_vs_one (Or.inr ⟨trivial, fun _ => rfl⟩) n σ sc
+
+/-- `true;` is equivalent to no statement at all up to fuel (not at every fuel: it needs two more units) … -/
+theorem true_stmt_skip (σ : State) (sc : List Addr) :
+    FuelEq (fun n => evalStmts n σ sc [.Expr tt]) (fun n => evalStmts n σ sc []) := by
+  refine FuelEq.of_shift (fun k => (monoAll k).evalStmts _ _ _) (fun k => (monoAll k).evalStmts _ _ _) 2 fun m hm => ?_
+  obtain ⟨k, rfl⟩ : ∃ k, m = k + 2 := ⟨m - 2, by omega⟩
+  have hs : evalStmt (k + 2) σ sc (.Expr tt) = .ok .none σ := by unfold evalStmt; unfold evalExpr; rfl
+  rw [stmts_cons, hs]; rfl
+
+example : evalStmts 1 State.init [] [.Expr tt] ≠ evalStmts 1 State.init [] [] := by
+  have h1 : evalStmts 1 State.init [] [.Expr tt] = .timeout := by with_unfolding_all rfl
+  have h2 : evalStmts 1 State.init [] [] = .ok .none State.init := by with_unfolding_all rfl
+  rw [h1, h2]; simp
+
+/-- … hence removable anywhere: in the body of a `for` inside an `else` inside a `while`, with statements before and
+    after it (non-vacuity of `stmt_ctx_congr_upto`, lists of different lengths, a hole followed by a statement) -/
+example (c lhs iter : Expr) (bs : List Branch) (a b : Stmt) (σ : State) (sc : List Addr) :
+    FuelEq (fun n => evalStmts n σ sc [.While c [.If bs (some [.For lhs iter [a, .Expr tt, b]])]])
+      (fun n => evalStmts n σ sc [.While c [.If bs (some [.For lhs iter [a, b]])]]) :=
+  stmt_ctx_congr_upto (.whileBody c (.ifElse bs (.forBody lhs iter (.seq [a] .hole [b])))) true_stmt_skip σ sc
 
 end Seed.C01
